@@ -479,6 +479,8 @@ func runC17(c *Ctx) {
 			}
 		}
 	}
+	// ---- part 1c: settings switch with thousands of pending writes
+	runBigPending(c, "C17")
 	// ---- part 2: live settings changes -----------------------------------------------------------
 	depth := 4
 	if c.Tier == "thorough" {
@@ -619,7 +621,7 @@ func runC17(c *Ctx) {
 		}
 	}
 	c.Meta(map[string]interface{}{
-		"rule":   "(1) all ordered pairs (stored shape, current shape) over 18 struct variants that share package and type name (field added / removed / retyped / renamed / reordered, pointer vs value nesting, nested field retyped, a second and third field of an already used struct type, tag added / removed / changed, lower / upper added, a field five path components deep added / retyped) x {0, 2} stored objects x 21 operations naming the collection, as first and as later operation on the handle; pair class computed by an independent reflection walk: structure different => ErrStructureChanged and byte-identical files (also after Control and Close); same structure but different constraints => Create refused with ErrFieldDescModif; other extension => ErrExtensionMismatch; compatible => operations succeed, data preserved, Control quiet. (1b) every incompatible (shape, extension, cache) re-creation on an asynchronous handle holding one flushed object, a pending update and a pending insert: refused with the right error, no file touched (pending writes stay pending), both objects served, written by Close and read back by a new handle. (2) Create with each of {cache on/off} x {async off, (2, 2 steps), (100, 2 steps)} as alphabet letters in BFS histories with pending writes (refinement continues, deleted objects never on disk, nothing lost at Close, second handle agrees) and as calls of a client against the running background writer over all schedules within 2 deviations (no panic, no blocking, nothing lost). Non-trivial = pairs of different shapes; histories with a settings change on non-empty collections.",
+		"rule":   "(1) all ordered pairs (stored shape, current shape) over 18 struct variants that share package and type name (field added / removed / retyped / renamed / reordered, pointer vs value nesting, nested field retyped, a second and third field of an already used struct type, tag added / removed / changed, lower / upper added, a field five path components deep added / retyped) x {0, 2} stored objects x 21 operations naming the collection, as first and as later operation on the handle; pair class computed by an independent reflection walk: structure different => ErrStructureChanged and byte-identical files (also after Control and Close); same structure but different constraints => Create refused with ErrFieldDescModif; other extension => ErrExtensionMismatch; compatible => operations succeed, data preserved, Control quiet. (1b) every incompatible (shape, extension, cache) re-creation on an asynchronous handle holding one flushed object, a pending update and a pending insert: refused with the right error, no file touched (pending writes stay pending), both objects served, written by Close and read back by a new handle. (1c) 9000 (thorough 4097..20000) pending writes, then asynchronous writes switched off (with and without cache): every object on disk, Count, Control, new handle. (2) Create with each of {cache on/off} x {async off, (2, 2 steps), (100, 2 steps)} as alphabet letters in BFS histories with pending writes (refinement continues, deleted objects never on disk, nothing lost at Close, second handle agrees) and as calls of a client against the running background writer over all schedules within 2 deviations (no panic, no blocking, nothing lost). Non-trivial = pairs of different shapes; histories with a settings change on non-empty collections.",
 		"shapes": len(shapeVariants), "operations": len(ops), "settings_depth": depth,
 	})
 }
